@@ -23,7 +23,7 @@ LEVEL_NOTE = ('nothing is claimed outside the menus: maxrej/groupdim/groupsize/g
               'in mc/props/c17.py, numpy, the offline SPPIXMASK bit table fixture')
 RULE = ('djs_reject: layer A = every residual vector over {-6,-2,0,2,6}^n x 6 scale forms x 7 limit triples x grow, layer B = '
         'every residual vector over {-6,0,6}^5 (quick {0,6}^5) x every inmask (None + 2^5) x every outmask (None + 2^5; quick '
-        'None + weight>=3) x scale x limits x sticky x grow; non-trivial = the expected rejected set is non-empty. '
+        'None + weight>=3) x 2 scale forms x sticky x grow 0..2; non-trivial = the expected rejected set is non-empty. '
         'djs_maskinterp: every mask (2^n) on the listed shapes x every axis x {index, irregular sorted x, unsorted x} x '
         'const x mask dtype; non-trivial = at least one masked and one unmasked sample. aesthetics: every zero pattern of '
         'the inverse variance on 8 pixels x 4 methods x 2 flux vectors x 2 ivar levels; non-trivial = some zero. djs_median: '
@@ -486,8 +486,8 @@ def tasks(tier):
     im = [None] + [list(m) for m in _masks(5)]
     for k, inm in enumerate(im):
         t.append({'f': 'rejB', 'inmask': inm, 'alpha': [0, 6, -6] if T else [0, 6],
-                  'outw': 0 if T else 3, 'scales': ['sA', 'iB', 's1', 'iZ'] if T else ['sA', 'iB'],
-                  'lims': [2, 4] if T else [2], 'grow': [0, 1, 2, 3] if T else [0, 1, 2]})
+                  'outw': 0 if T else 3, 'scales': ['sA', 'iZ'] if T else ['sA', 'iB'],
+                  'lims': [2], 'grow': [0, 1, 2]})
     # djs_maskinterp
     for n in range(1, (10 if T else 7) + 1):
         t.append({'f': 'mi', 'shape': [n], 'lo': 0, 'hi': 1 << n, 'axes': [None], 'xs': ['index', 'irr', 'perm'],
@@ -513,14 +513,14 @@ def tasks(tier):
             t.append({'f': 'med2', 'shape': [3, 4], 'alpha': [0, 1, 2], 'first': [a0]})
         t.append({'f': 'med2', 'shape': [5, 5], 'alpha': [0, 3], 'w': 5, 'first': [0] * 9})
     # skymask
+    for r1 in (0, 0x01, 0x80, 0x18, 0xa5, 0xff):
+        t.append({'f': 'sky', 'npix': 8, 'row0': 'all', 'row1': [r1, r1 + 1], 'dress': ['plain', 'rich'],
+                  'dts': list(SKY_DT), 'ngrow': [0, 1, 2, 3]})
     if T:
-        for r1hi in range(32):
-            t.append({'f': 'sky', 'npix': 8, 'row0': 'all', 'row1': [r1hi << 3, (r1hi + 1) << 3], 'dress': ['plain', 'rich'],
-                      'dts': list(SKY_DT), 'ngrow': [0, 1, 2, 3]})
-    else:
-        for r1 in (0, 0x01, 0x80, 0x18, 0xa5, 0xff):
-            t.append({'f': 'sky', 'npix': 8, 'row0': 'all', 'row1': [r1, r1 + 1], 'dress': ['plain', 'rich'],
-                      'dts': list(SKY_DT), 'ngrow': [0, 1, 2, 3]})
+        # every one of the 2^16 flag patterns on 2 x 8 pixels
+        for r1hi in range(16):
+            t.append({'f': 'sky', 'npix': 8, 'row0': 'all', 'row1': [r1hi << 4, (r1hi + 1) << 4], 'dress': ['swap'],
+                      'dts': list(SKY_DT), 'ngrow': [1, 2]})
     t.append({'f': 'sky1'})
     return t
 
